@@ -1001,9 +1001,12 @@ func TestProsumer(t *testing.T) {
 				steps = append(steps, step{"pub", tp, rapid.IntRange(1, 6).Draw(rt, "n")})
 			}
 		}
-		greet := rapid.Bool().Draw(rt, "greet")
+		// topic 0 may have a callback with a concrete parameter type (int): its publisher sends numbers and now
+		// and then a text the callback cannot take; that one message is not deliverable, the others are
+		intTopic := rapid.IntRange(0, 2).Draw(rt, "intTopic") == 0
+		greet := !intTopic && rapid.Bool().Draw(rt, "greet")
 		slowGreet := greet && rapid.Bool().Draw(rt, "slowGreet")
-		canon := fmt.Sprintf("prosumer topics=%d greet=%v slowGreet=%v pollTimeout=%v steps=%v", ntopics, greet, slowGreet, pollTimeout, steps)
+		canon := fmt.Sprintf("prosumer topics=%d greet=%v slowGreet=%v pollTimeout=%v topic0-takes-int=%v steps=%v", ntopics, greet, slowGreet, pollTimeout, intTopic, steps)
 		ev.S.Begin("prosumer", canon)
 		addr := fmt.Sprintf("c19p-%d", atomic.AddInt64(&rigSeq, 1))
 		broker := push.NewBroker(core.NewService())
@@ -1025,6 +1028,18 @@ func TestProsumer(t *testing.T) {
 			defer pubMu.Unlock()
 			res := broker.Push(token, topic, "cons")
 			accept(topic, token, res["cons"])
+		}
+		undeliverable := 0
+		publishInt := func(topic string, n int, bad bool) {
+			pubMu.Lock()
+			defer pubMu.Unlock()
+			if bad {
+				broker.Push(fmt.Sprintf("not a number %d", n), topic, "cons")
+				undeliverable++
+				return
+			}
+			res := broker.Push(n, topic, "cons")
+			accept(topic, fmt.Sprint(n), res["cons"])
 		}
 		if greet {
 			broker.OnSubscribe = func(ctx context.Context, id string, topic string) {
@@ -1050,16 +1065,28 @@ func TestProsumer(t *testing.T) {
 			switch st.Kind {
 			case "sub":
 				tpc := topic
-				if _, err := cons.Subscribe(tpc, func(data string) {
+				var cb interface{} = func(data string) {
 					mu.Lock()
 					got[tpc] = append(got[tpc], data)
 					mu.Unlock()
-				}); err != nil {
+				}
+				if intTopic && st.Topic == 0 {
+					cb = func(data int, from string) {
+						mu.Lock()
+						got[tpc] = append(got[tpc], fmt.Sprint(data))
+						mu.Unlock()
+					}
+				}
+				if _, err := cons.Subscribe(tpc, cb); err != nil {
 					problem = fmt.Sprintf("subscribe(%s) failed: %v", tpc, err)
 				}
 			case "pub":
 				for i := 0; i < st.N; i++ {
 					seq++
+					if intTopic && st.Topic == 0 {
+						publishInt(topic, seq, (seq*7+st.N)%4 == 0)
+						continue
+					}
 					publish(topic, fmt.Sprintf("%s-%04d", topic, seq))
 				}
 			case "wait":
@@ -1112,7 +1139,7 @@ func TestProsumer(t *testing.T) {
 			cons.Unsubscribe(fmt.Sprintf("t%d", tp))
 		}
 		client.Abort()
-		ev.S.Case("prosumer", canon, nacc > 0 && len(subscribed) > 0, fmt.Sprintf("prosumer-greet=%v", greet), fmt.Sprintf("prosumer-topics=%d", len(subscribed)), fmt.Sprintf("prosumer-poll-timed-out=%v", idles > 0))
+		ev.S.Case("prosumer", canon, nacc > 0 && len(subscribed) > 0, fmt.Sprintf("prosumer-greet=%v", greet), fmt.Sprintf("prosumer-topics=%d", len(subscribed)), fmt.Sprintf("prosumer-poll-timed-out=%v", idles > 0), fmt.Sprintf("prosumer-typed-callback-with-undeliverable=%v", undeliverable > 0))
 		if problem != "" {
 			if os.Getenv("VERIF_TRIAGE") != "" {
 				fmt.Printf("TRIAGE %s | %s\n", problem, canon)
